@@ -532,8 +532,27 @@ def oracle(ctx, hints=()):
                 break
         if len(viol) > 20:
             break
+    # a structure of protein size: several hundred atoms in one list (a blocked / vectorised evaluation has its seams at 256, 512 ...),
+    # in groups whose rotation matrices are not symmetric (tetragonal, trigonal, hexagonal) and in a monoclinic one
+    nlong = 0
+    small = [e for e in todo if group(e['name'])['nsymop'] <= 12]
+    pick = [e for e in small if group(e['name'])['cs'] in ('tetragonal', 'trigonal', 'hexagonal')][:2] + \
+           [e for e in small if group(e['name'])['cs'] == 'monoclinic'][:1]
+    for e, nat in zip(pick, (rng.randint(258, 330), rng.randint(515, 640), rng.randint(258, 800))):
+        if len(viol) > 20:
+            break
+        G = group(e['name'])
+        cell = gens.conforming_cell(rng, G['cs'], G['cell_choice'])
+        atoms = general_atoms(rng, G, nat, force_uani=True)
+        inp = {'sgname': e['name'], 'cell': cell, 'atoms': atoms, 'disper': rand_disper(rng, atoms, 'full')}
+        for h in [rand_hkl(rng, 6, allow_zero=False) for _ in range(2)]:
+            v, n, st = check_hkl(G, inp, h)
+            viol += v
+            ev += n
+            nontriv += st['n_nontrivial']
+        nlong += 1
     return {'evaluations': ev, 'distinct_nontrivial': nontriv, 'violations': viol, 'samples': [sample], 'exhaustive': False,
-            'stats': {'settings': len(todo), 'per_crystal_system': per_cs, 'settings_with_operator_extinctions': groups_with_ext,
+            'stats': {'settings': len(todo), 'per_crystal_system': per_cs, 'settings_with_operator_extinctions': groups_with_ext, 'long_atom_lists': nlong,
                       'extinct_reflections_checked': agg['n_ext'], 'uani_x_nonsymmetric_rotation_pairs': agg['n_nonsym_uani'],
                       'max_err_over_tol_law_6digit_groups': agg['law'], 'max_err_over_tol_law_exact_groups': agg['law_exact'],
                       'max_err_over_tol_extinct': agg['ext'], 'max_err_over_tol_friedel': agg['friedel']}}
